@@ -93,7 +93,7 @@ var modes = []string{"parse", "validate"}
 
 func TestC20(t *testing.T) {
 	h := hh.Start(t, "C20",
-		"single-test schemas; exhaustive sweeps: ContainsUpper/Digit/Special (and their Not forms) over every rune U+0000..U+02FF plus class-edge pairs; string Min/Max/Len for n in 0..6 over subjects of byte length 0..8 incl. multi-byte runes; numeric GT/GTE/LT/LTE/EQ over all pairs of per-width boundary sets incl. NaN/Inf/-0; slice Min/Max/Len/Contains; time After/Before/EQ over {t-1ns,t,t+1ns} x zones; random: OneOf/Contains/HasPrefix/HasSuffix/Match; grammar classes: Email (WHATWG recogniser, generated members and single-edit near misses), UUID (8-4-4-4-12 hex, single edits), URL (only strings certainly with/without scheme+host). Non-trivial = subject within one unit of the parameter, a class-edge or multi-byte rune, a generated grammar member or near miss; every enumerated cell counts once",
+		"single-test schemas; exhaustive sweeps: ContainsUpper/Digit/Special (and their Not forms) over every rune U+0000..U+02FF plus class-edge pairs; string Min/Max/Len for n in 0..6 over subjects of byte length 0..8 incl. multi-byte runes; numeric GT/GTE/LT/LTE/EQ over all pairs of per-width boundary sets incl. NaN/Inf/-0; slice Min/Max/Len/Contains (incl. pointer elements with pointer needles); the same tests on user-defined named types (StringSchema[T], NumberSchema[T], BoolSchema[T]) with Required on and off; time After/Before/EQ over {t-1ns,t,t+1ns} x zones; random: OneOf/Contains/HasPrefix/HasSuffix/Match; grammar classes: Email (WHATWG recogniser, generated members and single-edit near misses), UUID (8-4-4-4-12 hex, single edits), URL (only strings certainly with/without scheme+host). Non-trivial = subject within one unit of the parameter, a class-edge or multi-byte rune, a generated grammar member or near miss; every enumerated cell counts once",
 		"issue present iff the reference predicate is false, in Parse and Validate; absent-looking subjects are supplied through Default (which the statement says is tested like any other value)",
 		"UUID version nibble and URL strings outside the certain classes are not asserted either way")
 	defer h.Finish()
@@ -263,6 +263,9 @@ func TestC20(t *testing.T) {
 			}
 		}
 	}, propC20(nil))
+
+	// 5b. named primitive types (StringSchema[T ~string], NumberSchema[T], BoolSchema[T ~bool]) incl. the absent rule
+	hh.Enumerate(h, "named-types", c20NamedCells, propC20Named)
 
 	// 6. random string relations
 	alphabet := []rune("abAB19 .-_@/é日\x00")
